@@ -34,8 +34,9 @@ from pyvc.run import Job
 ET = gtirb.EdgeType
 
 
-def build(ctx, nret, callee_kind, second_call):
-    """callee_kind: 'function' | 'no-function-info' | 'proxy';  second_call: None | 'same-site' | 'other-site'"""
+def build(ctx, nret, callee_kind, second_call, extra=None):
+    """callee_kind: 'function' | 'no-function-info' | 'proxy';  second_call: None | 'same-site' | 'other-site';
+    extra: index of a returning block that ALSO has an unattributed return (to a registered proxy), as disassemblers leave them"""
     ir, m = create_test_module(gtirb.Module.FileFormat.ELF, gtirb.Module.ISA.X64)
     _, bi = add_text_section(m, address=0x1000)
     src = add_code_block(bi, b"\xe8\x00\x00\x00\x00")
@@ -61,12 +62,17 @@ def build(ctx, nret, callee_kind, second_call):
             add_edge(cfg, entry, r, ET.Branch, conditional=True)
             for s in sites:
                 add_edge(cfg, r, s, ET.Return)
+    xproxy = None
+    if extra is not None and callee_kind != "proxy" and rets:
+        xproxy = add_proxy_block(m)
+        add_edge(cfg, rets[extra % len(rets)], xproxy, ET.Return)
     fl = []
     add_function(m, add_symbol(m, "caller", src), src, {old, new, src2, site2})
     if callee_kind == "function":
         add_function(m, add_symbol(m, "callee", entry), entry, set(rets))
     fl = gtirb_functions.Function.build_functions(m)
-    return dict(ir=ir, m=m, src=src, old=old, new=new, src2=src2, site2=site2, entry=entry, rets=rets, callee=callee, fl=fl, sites=sites)
+    return dict(ir=ir, m=m, src=src, old=old, new=new, src2=src2, site2=site2, entry=entry, rets=rets, callee=callee, fl=fl, sites=sites,
+                xproxy=xproxy, xblock=(rets[extra % len(rets)] if xproxy is not None else None))
 
 
 def ret_targets(b):
@@ -80,6 +86,11 @@ def ret_invariant(H, want_sites):
         t = ret_targets(r)
         real = [x for x in t if not isinstance(x, gtirb.ProxyBlock)]
         prox = [x for x in t if isinstance(x, gtirb.ProxyBlock)]
+        if r is H.get("xblock"):
+            # its unattributed return is nobody's business: it stays, and it already is "a return to an unknown proxy"
+            if sorted(real, key=id) != sorted(want_sites, key=id) or prox != [H["xproxy"]]:
+                bad.append("the block with an unattributed return: %d code targets (expected %d), %d proxies (expected its own one)" % (len(real), len(want_sites), len(prox)))
+            continue
         if want_sites:
             if sorted(real, key=id) != sorted(want_sites, key=id) or prox:
                 bad.append("returning block returns to %d code targets and %d proxies, expected exactly the %d return sites" % (len(real), len(prox), len(want_sites)))
@@ -159,7 +170,10 @@ def add_returns_harness(ctx):
 
 def remove_returns_harness(ctx):
     nret, kind, second = universe(ctx)
-    H = build(ctx, nret, kind, second)
+    # returning blocks need not be uniform: one of them (the first or the last created; block sets iterate in identity order, so
+    # both are tried) may also have a return nobody attributed to a call
+    extra = [None, 0, -1][ctx.choose(3, "a-returning-block-also-returns-to-an-unknown-proxy")]
+    H = build(ctx, nret, kind, second, extra)
     ir, src, old = H["ir"], H["src"], H["old"]
     call_edge = [e for e in src.outgoing_edges if e.label.type == ET.Call][0]
     with make_modify_cache(H["m"], H["fl"]) as cache:
@@ -171,7 +185,7 @@ def remove_returns_harness(ctx):
         ctx.prove("remove_return_edges_from_callee/returns-lead-to-the-remaining-call-sites-or-one-registered-proxy", z3.BoolVal(not bad), note="; ".join(bad[:2]))
     else:
         ctx.prove("remove_return_edges_from_callee/return-edges-untouched-without-function-information",
-                  z3.BoolVal(all(sorted(ret_targets(r), key=id) == sorted(H["sites"], key=id) for r in H["rets"]) or kind == "proxy"))
+                  z3.BoolVal(all(sorted(ret_targets(r), key=id) == sorted(H["sites"] + ([H["xproxy"]] if r is H["xblock"] else []), key=id) for r in H["rets"]) or kind == "proxy"))
 
 
 def changing_fallthrough_harness(ctx):
